@@ -419,8 +419,37 @@ func TestChildNesting(t *testing.T) {
 	ci, _ := strconv.Atoi(os.Getenv("VERIF_CASE"))
 	d, _ := strconv.Atoi(os.Getenv("VERIF_DEPTH"))
 	pre := os.Getenv("VERIF_PRE")
+	// history of the connection: commands carrying empty lists (the cap must
+	// not depend on what was parsed before)
+	if n, _ := strconv.Atoi(os.Getenv("VERIF_EMPTYLISTS")); n > 0 && pre != "" {
+		var b strings.Builder
+		for i := 0; i < n; i++ {
+			switch i % 3 {
+			case 0:
+				fmt.Fprintf(&b, "e%d STORE 1 +FLAGS.SILENT ()\r\n", i)
+			case 1:
+				fmt.Fprintf(&b, "e%d LIST () \"\" \"%%\"\r\n", i)
+			default:
+				fmt.Fprintf(&b, "e%d STATUS INBOX ()\r\n", i)
+			}
+		}
+		pre += b.String()
+	}
 	input := pre + nestCases[ci].build(d)
-	feed(t, []byte(input), "halfclose", fmt.Sprintf("%s x %d", nestCases[ci].name, d))
+	calls := feed(t, []byte(input), "halfclose", fmt.Sprintf("%s x %d", nestCases[ci].name, d))
+	// "list nesting is bounded": nothing nested deeper than the cap may be
+	// accepted and handed to the backend
+	if d > 1000 && strings.HasPrefix(nestCases[ci].name, "SEARCH") && strings.Contains(nestCases[ci].name, "(") {
+		nested := 0
+		for _, c := range calls {
+			if c.Method == "Search" {
+				nested++
+			}
+		}
+		if nested > 0 {
+			t.Fatalf("%s: a SEARCH nested %d levels deep (cap 1000) was accepted and reached the backend", nestCases[ci].name, d)
+		}
+	}
 	var ms runtime.MemStats
 	runtime.ReadMemStats(&ms)
 	fmt.Printf("CHILD-OK total_alloc=%d input=%d\n", ms.TotalAlloc, len(input))
@@ -430,12 +459,19 @@ func TestReplayNesting(t *testing.T) {
 	depths := nestDepths
 	for ci, nc := range nestCases {
 		for _, d := range depths {
-			for _, pre := range []string{"", "p1 LOGIN u p\r\np2 SELECT INBOX\r\n"} {
+			for pi, pre := range []string{"", "p1 LOGIN u p\r\np2 SELECT INBOX\r\n", "p1 LOGIN u p\r\np2 SELECT INBOX\r\n"} {
+				emptyLists := 0
+				if pi == 2 {
+					if d != 1001 && d != 5000 {
+						continue
+					}
+					emptyLists = 9000
+				}
 				cmd := exec.Command(os.Args[0], "-test.run", "^TestChildNesting$", "-test.v")
-				cmd.Env = append(os.Environ(), "VERIF_CHILD=1", "VERIF_CASE="+strconv.Itoa(ci), "VERIF_DEPTH="+strconv.Itoa(d), "VERIF_PRE="+pre, "VERIF_OUT=")
+				cmd.Env = append(os.Environ(), "VERIF_CHILD=1", "VERIF_CASE="+strconv.Itoa(ci), "VERIF_DEPTH="+strconv.Itoa(d), "VERIF_PRE="+pre, "VERIF_EMPTYLISTS="+strconv.Itoa(emptyLists), "VERIF_OUT=")
 				out, err := cmd.CombinedOutput()
 				ev.Eval()
-				ev.NonTrivial(fmt.Sprint("nest", nc.name, d, pre != ""))
+				ev.NonTrivial(fmt.Sprint("nest", nc.name, d, pre != "", emptyLists))
 				ev.Class("nesting-probe")
 				if err != nil || !strings.Contains(string(out), "CHILD-OK") {
 					s := string(out)
@@ -443,7 +479,7 @@ func TestReplayNesting(t *testing.T) {
 					if len(head) > 1500 {
 						head = head[:1500]
 					}
-					t.Fatalf("nesting probe %q at depth %d (authenticated=%v): the server process failed (%v):\n%s", nc.name, d, pre != "", err, head)
+					t.Fatalf("nesting probe %q at depth %d (authenticated=%v, after %d commands with empty lists): the server process failed (%v):\n%s", nc.name, d, pre != "", emptyLists, err, head)
 				}
 			}
 		}
